@@ -109,7 +109,7 @@ contract(M + 'HandshakeMsg.postWrite',
              S.seq_eq(ns.result, S.cat(S.byte(ns.f(ns.self, 'handshakeType')), S.be(n, 3), body)),
              S.len_(ns.result) == 4 + n, S.is_bytes(ns.result),
              # consequences stated for callers: the body verbatim at offset 4, and groups inside it decode alike
-             S.forall(lambda k: at(ns.result, 4 + k) == at(body, k), 0, n),
+             S.forall(lambda i: at(ns.result, i) == at(body, i - 4), 4, 4 + n),
              hs_body_frame(ns.result, body),
              only_modifies(ns)))(ns.f(ns.w, 'bytes'), S.len_(ns.f(ns.w, 'bytes'))),
          raises={ValueError: ('iff', lambda ns: S.Not(hs_fits(ns)))},
